@@ -49,6 +49,17 @@ PROPS["C16"] = {
     "claimed": False,
 }
 
+PROPS["C05"] = {
+        "lean": ["NB.Props.C05"],
+        "gens": ["c05"],
+        "profiles": ["release", "debug"],
+        "trusted": ["u64/u128 wrapping arithmetic and bit operations = Nat arithmetic mod 2^64 and Nat.land/lor/shiftRight on digits < 2^64 (NB.wadd, wsub, wmul, wnot, hdBorrow)",
+                    "BigUint operators used inside modpow/modinv (* % div_rem - cmp <<) taken as the mathematical operations (justified by C01-C03, C07)"],
+        "assumptions": COMMON_ASSUME,
+        "level_text": "Theorems (all sorry-free, none _partial): modpow_spec — for ALL canonical b, e, m with m != 0 the model of BigUint::modpow returns the canonical digits of b^e mod m, on the odd path (monty_modpow_spec: padding, rr, 16-entry table, 4-bit windows from the top, skipped first squarings, conversion out, last reduction; built on montgomery_spec: n-digit operands not necessarily < m, z < B^n and z*B^n = x*y (mod m), with the digit-level lemmas add_mul_vvw_spec, sub_vv_spec (Hacker's-Delight borrow proved arithmetically), inv_mod_alt_spec k*b = -1 (mod 2^64)) and on the even path (plain_modpow_spec: zero-digit skipping, trailing-zero stripping, early exit, last digit); modinv_spec — Some(x) iff gcd(a,m)=1, then x<m and a*x = 1 (mod m), zero modulus panics; bigint_modpow_spec — negative exponent / zero modulus panic, otherwise BigInt.ofInt (Int.fmod (b^e) m); bigint_modinv_spec — Some(y) iff gcd=1, y canonical, in [0,m) resp. (m,0], m | a*y-1. No internal assertion, overflow site or checked subtraction of the model is reachable. The model is tied to the source by the extracted window width (obligation gen_params_valid_monty: window = 4 = the four literal squarings) and by a 3-way differential run (real crate release+debug vs compiled model vs independent Nat/Int oracle) on structured moduli/bases/exponents/signs plus the internal hooks montgomery (digit-exact and checked mod m / < B^n, exit branch compared through the MONTY_SUB probe) and inv_mod_alt.",
+        "level_note": 'Trusted: Lean kernel + {propext, Classical.choice, Quot.sound} (no bv_decide needed); u64/u128 wrapping arithmetic and & | ! >> modelled as Nat arithmetic mod 2^64 and Nat.land/lor/shiftRight; BigUint operators inside modpow/modinv taken as the mathematical operations (C01-C03, C07); Vec/ownership not modelled; correspondence strength bounded by the generators (quick: ~9.8k requests, probes MONTY_SUB/NOSUB/FINAL_SUB all hit).',
+    }
+
 NOT_CLAIMED = {}
 
 if __name__ == "__main__":
